@@ -101,7 +101,9 @@ def clean_scope_docstring(scope_node):
         # leaves anymore that might be part of the docstring. A
         # docstring can also look like this: ``'foo' 'bar'
         # Returns a literal cleaned version of the ``Token``.
-        return cleandoc(safe_literal_eval(node.value))
+        docstring = safe_literal_eval(node.value)
+        if isinstance(docstring, str):  # Bytes are never documentation.
+            return cleandoc(docstring)
     return ''
 
 
@@ -113,7 +115,9 @@ def find_statement_documentation(tree_node):
             if maybe_string.type == 'simple_stmt':
                 maybe_string = maybe_string.children[0]
                 if maybe_string.type == 'string':
-                    return cleandoc(safe_literal_eval(maybe_string.value))
+                    docstring = safe_literal_eval(maybe_string.value)
+                    if isinstance(docstring, str):
+                        return cleandoc(docstring)
     return ''
 
 
